@@ -158,9 +158,10 @@ def param_generate(user_shape):
         ut = table("user", shp)
         lo, hi = z3.Real("lo"), z3.Real("hi")
         pre0 = [n >= 2, b >= 1, b <= n]
+        user_dict = {"u": ut}
         try:
             rec = ex.construct("DataGeneratorParameter", [{"r": Key(), "u": Key()}, n, b], dict(param_ranges={"r": (lo, hi), "u": (lo - 5, lo - 4)},
-                                                                                             method="uniform", user_data={"u": ut}), pre0)
+                                                                                             method="uniform", user_data=user_dict), pre0)
             raised = None
         except pyvc.PyRaise as e:
             raised = e.exc_name
@@ -185,7 +186,8 @@ def param_generate(user_shape):
                  ("sampled_shape", z3.And(zint(pn["r"].shape[0]) == n, zint(pn["r"].shape[1]) == 1)),
                  ("one_draw_for_the_sampled_key_only", z3.BoolVal(len(us) == 1)),
                  ("sampled_from_own_range", z3.And(us[0][0] == lo, us[0][1] == hi) if us else z3.BoolVal(False)),
-                 ("first_call_reshuffles", z3.And(*[zint(v) == INT32_MAX - b - 1 for v in rec.fields["curr_param_idx"].values()]))]
+                 ("first_call_reshuffles", z3.And(*[zint(v) == INT32_MAX - b - 1 for v in rec.fields["curr_param_idx"].values()])),
+                 ("user_dict_not_modified", z3.BoolVal(sorted(user_dict.keys()) == ["u"] and user_dict["u"] is ut))]
         return finish(name, goals, pre, ex, t0)
     return FnObligation(name, run, [DG + "DataGeneratorParameter.generate_data", DG + "DataGeneratorParameter.__post_init__"])
 
@@ -196,9 +198,10 @@ def multi_loader():
         t0 = time.time()
         ex = Executor(SRC)
         tabs = {u: (table("pin_" + u, (n, 1)), table("val_" + u, (n, 1))) for u in ("u", "w")}
+        # the three user dictionaries have the same keys but are written in different insertion orders
         rec = ex.construct("DataGeneratorObservationsMultiPINNs", [b, {"u": tabs["u"][0], "v": None, "w": tabs["w"][0]},
-                                                                 {"u": tabs["u"][1], "v": None, "w": tabs["w"][1]}],
-                           dict(observed_eq_params_dict={"u": {"a": table("oa", (n, 1))}, "v": {}, "w": {}}, key=Key()), [n >= 1, b >= 1, b <= n])
+                                                                 {"w": tabs["w"][1], "u": tabs["u"][1], "v": None}],
+                           dict(observed_eq_params_dict={"v": {}, "w": {}, "u": {"a": table("oa", (n, 1))}}, key=Key()), [n >= 1, b >= 1, b <= n])
         gens = rec.fields["data_gen_obs"]
         if sorted(gens.keys()) != ["u", "v", "w"] or gens["v"] is not None:
             return dict(status="violated", failure="value", detail=f"per-network generators: {sorted(gens.keys())}, v -> {gens['v']}",
@@ -216,6 +219,11 @@ def multi_loader():
             goals.append((f"aligned[{u}]", z3.And(batches[u]["pinn_in"].elem(r_, 0) == tabs[u][0].elem(m, 0),
                                                    batches[u]["val"].elem(r_, 0) == tabs[u][1].elem(m, 0))))
         goals.append(("own_parameters[u]", z3.BoolVal(sorted(batches["u"]["eq_params"].keys()) == ["a"] and batches["w"]["eq_params"] == {})))
+        goals.append(("parameter_row[u]", batches["u"]["eq_params"]["a"].elem(r_, 0) ==
+                      table("oa", (n, 1)).elem(new.fields["data_gen_obs"]["u"].fields["indices"].elem(r_), 0)))
+        for pm in getattr(ex, "perms", []):             # permutation contract: range
+            v = z3.Int("anyrow")
+            ax.append(z3.ForAll([v], z3.Implies(z3.And(v >= 0, v < zint(pm[2])), z3.And(pm[0](v) >= 0, pm[0](v) < zint(pm[2])))))
         return finish(name, goals, pre, ex, t0, ax)
     return FnObligation(name, run, [DG + "DataGeneratorObservationsMultiPINNs.__post_init__", DG + "DataGeneratorObservationsMultiPINNs.obs_batch"])
 
